@@ -141,7 +141,7 @@ def closes(r, inner):
     return k == 0
 
 
-DATA = ["x", " y ", "a\nb", " z", "T w", ""]
+DATA = ["x", " y ", "a\nb", "\u00a0z", "T\u2003w", ""]
 ATTRS = [(), (("href", "u"),), (("id", "a"), ("id", "b")), (("hidden", None), ("src", "x")), (("class", "c"), ("x", None), ("class", "d"))]
 
 
@@ -271,11 +271,16 @@ def event_oracle(ctx, H, E):
     pre0 = [("S", "p", ()), ("D", "before"), ("E", "p")]
     post0 = [("S", "p", ()), ("D", "after"), ("E", "p")]
 
+    fails = ctx.extra.setdefault("oracle_failures", {})
+
     def same(name, cls, obs, a, b):
         try:
-            return obs(drive(cls, a)) == obs(drive(cls, b))
+            ok = obs(drive(cls, a)) == obs(drive(cls, b))
         except Exception:  # noqa
-            return False
+            ok = False
+        if not ok:
+            fails[name + "-event"] = fails.get(name + "-event", 0) + 1
+        return ok
 
     for name, cls, obs, remove in machines:
         removable = sorted(set(STATEMENT_REMOVED) | set(remove))
@@ -320,7 +325,7 @@ def event_oracle(ctx, H, E):
                     k = ("void-child" if e[0] == "S" and e[1].lower() in STD_VOID else
                          "nested-removable" if e[0] == "S" and e[1].lower() in removable else
                          "unclosed-child" if e[0] == "S" else "stray-end-tag" if e[0] == "E" else None)
-                    if k and not same(name, cls, obs, pre0 + [("S", r, ())] + [e] + [("E", r)] + post0, pre0 + post0):
+                    if k and not same(name, cls, obs, pre0 + [("S", r, ()), e, ("D", "hid"), ("E", r)] + post0, pre0 + post0):
                         kind = k
                         break
                 ctx.finding(f"{name}:removed-{kind}", f"{name}: <{r}> with inner events {inner!r} is not removed cleanly",
@@ -531,6 +536,7 @@ def text_level(ctx, H, E):
     mods = {"mhtml": importlib.import_module("sharepoint2text.parsing.extractors.mhtml_extractor"),
             "msg": importlib.import_module("sharepoint2text.parsing.extractors.mail.msg_email_extractor")}
     rng = ctx.rng
+    fails = ctx.extra.setdefault("oracle_failures", {})
 
     def evaluate(body, doc, head_extra=""):
         """returns list of (path, reason)"""
@@ -544,6 +550,7 @@ def text_level(ctx, H, E):
             why = check_tokens(text, extra, doc.visible, doc.cells, doc.hidden, tables)
             if why:
                 bad.append((path, why))
+                fails[path] = fails.get(path, 0) + 1
         return bad
 
     # fixed probes: every removable tag x every single kind of content -------------------------------
@@ -597,6 +604,97 @@ def text_level(ctx, H, E):
                                                                          "visible": d.visible, "cells": d.cells, "hidden": d.hidden})
 
 
+# ----------------------------------------------------------------------------- feed-level correspondence
+def recording(cls):
+    """Subclass that records the handler calls html.parser makes, then lets the real handler run."""
+    class Rec(cls):
+        def __init__(self):
+            super().__init__()
+            self.events = []
+
+        def handle_starttag(self, tag, attrs):
+            self.events.append(("S", tag, tuple(attrs)))
+            super().handle_starttag(tag, attrs)
+
+        def handle_endtag(self, tag):
+            self.events.append(("E", tag))
+            super().handle_endtag(tag)
+
+        def handle_data(self, data):
+            self.events.append(("D", data))
+            super().handle_data(data)
+
+        def handle_comment(self, data):
+            self.events.append(("C", data))
+            super().handle_comment(data)
+    return Rec
+
+
+def feed_correspondence(ctx, H, E):
+    """feed(document) on the real classes == model run on the event stream the tokenizer produced
+    (ties handle_startendtag = Start;End and "no other callback touches the state")."""
+    rng = ctx.rng
+    docs = ['<p>a</p><noscript><img src=x></noscript><p>b</p>', '<p>a<embed src=x>b<embed/>c</p>', '<br/><p/>x<script/>y</script>z',
+            '<!DOCTYPE html><?pi x?><p>a &amp; b &#65; <![CDATA[c]]> <!-- d --></p><title>t</title>',
+            '<table><tr><td>a<noscript></td>x</noscript></td><th>b</th></tr></table><p>c</p>',
+            '<P CLASS=x Class=y hidden>a</P><NoScript>h</NOSCRIPT>b<object><param name=a>h</object>c']
+    for _ in range(ctx.n(250, 2500)):
+        d = Doc(rng)
+        body = d.body(rng.randint(1, 4))
+        docs.append(body if rng.random() < 0.5 else wrap_full(body))
+    pre = "From S2T Require Import Lib.PyStr C17.Model C17.Corr Gen.C17Tables.\n"
+    for name, cls, obs, obs_coq, fn, ty in (
+            ("html", H._HtmlTreeBuilder, lambda p: html_obs(p)[0], html_obs_coq, "(html_case html_remove html_void)", "list event * html_obs"),
+            ("epub", E._XhtmlTextExtractor, epub_obs, epub_obs_coq, "(epub_case epub_remove epub_void epub_block ws_table)", "list event * epub_obs")):
+        Rec = recording(cls)
+        cases, raised = [], []
+        for doc in docs:
+            try:
+                p = Rec()
+                p.feed(doc)
+                cases.append(f"({evs_coq(p.events)}, {obs_coq(obs(p))})")
+                ctx.case((name + "-feed", doc), "<" in doc, kind=f"{name}-feed")
+            except Exception as ex:  # noqa
+                raised.append((doc, repr(ex)))
+        ok, failing, log = coq_eval_shards(ctx, name + "feed", pre, fn, cases, shard=250, ty=ty)
+        ctx.traces += len(cases)
+        ctx.disagreements += len(failing)
+        ctx.obligation(f"correspondence:{cls.__name__}.feed(document) state == model on the tokenizer's event stream",
+                       ok and not failing and not raised,
+                       (f"{len(failing)} disagreements of {len(cases)}, first: {docs[failing[0]] if failing else ''!r}; raised {raised[:1]} " + log)[:1500])
+
+
+# ----------------------------------------------------------------------------- replay
+def replay(ctx, rp):
+    """./check C17 --replay F : re-evaluate the recorded input's oracle on the current tree."""
+    import importlib
+    import logging
+    logging.disable(logging.CRITICAL)
+    from sharepoint2text.parsing.extractors import html_extractor as H
+    from sharepoint2text.parsing.extractors import epub_extractor as E
+    key = rp.get("key", "replay")
+    if "events" in rp:
+        tup = lambda evs: [tuple(tuple(tuple(a) for a in x) if isinstance(x, list) else x for x in e) for e in evs]
+        cls, obs = ((H._HtmlTreeBuilder, lambda p: html_obs(p)[0]) if rp.get("machine") == "html" else (E._XhtmlTextExtractor, epub_obs))
+        a, b = tup(rp["events"]), tup(rp["without"])
+        ctx.case(("replay", a), True, kind="replay")
+        if obs(drive(cls, a)) != obs(drive(cls, b)):
+            ctx.finding(key, rp.get("what", "state differs"), {"machine": rp.get("machine"), "events": a, "without": b})
+    elif "html_body" in rp:
+        mods = {"mhtml": importlib.import_module("sharepoint2text.parsing.extractors.mhtml_extractor"),
+                "msg": importlib.import_module("sharepoint2text.parsing.extractors.mail.msg_email_extractor")}
+        body = rp["html_body"]
+        res = run_paths(body, wrap_full(body), H, E, mods)
+        ctx.case(("replay", body), True, kind="replay")
+        for path, (text, extra, tables) in res.items():
+            why = check_tokens(text, extra, rp.get("visible", []), rp.get("cells", []), rp.get("hidden", []), tables)
+            if why:
+                ctx.finding(key, f"{path}: {why} for {body[:200]!r}", {"path": path, "html_body": body, "why": why,
+                            "visible": rp.get("visible", []), "cells": rp.get("cells", []), "hidden": rp.get("hidden", [])})
+    else:
+        run(ctx)
+
+
 # ----------------------------------------------------------------------------- X-fact: who uses the builder
 def reuse_facts(ctx):
     import ast
@@ -648,6 +746,7 @@ def run(ctx):
 
     reuse_facts(ctx)
     event_correspondence(ctx, H, E)
+    feed_correspondence(ctx, H, E)
     event_oracle(ctx, H, E)
     text_level(ctx, H, E)
 
